@@ -222,7 +222,17 @@ func ParseFunction(parameterList, body string) (*ast.FunctionLiteral, error) {
 		return nil, err
 	}
 
-	return program.Body[0].(*ast.ExpressionStatement).Expression.(*ast.FunctionLiteral), nil
+	// the body text can close the wrapper and go on with code of its own ("return 1}), (function(){"): only a single
+	// expression statement holding a function literal is a function
+	if len(program.Body) == 1 {
+		if statement, ok := program.Body[0].(*ast.ExpressionStatement); ok {
+			if function, ok := statement.Expression.(*ast.FunctionLiteral); ok {
+				return function, nil
+			}
+		}
+	}
+
+	return nil, errors.New("parameter list and body do not form a single function")
 }
 
 // Scan reads a single token from the source at the current offset, increments the offset and
